@@ -791,6 +791,52 @@ func c17Directed(c *core.Ctx) bool {
 		c.Violation("test-options-leak|shared-params-map", map[string]any{"schema": "m := map{unit: kg}; Int().OneOf([1 2 3], Params(m)); String().OneOf([a], Params(m)); Int().LT(5, Params(m))", "the_applications_map_now": fmt.Sprint(shared), "params_of_the_LT_issue": fmt.Sprint(lp[0].Params), "want": "map[unit:kg]"})
 		return false
 	}
+	// (i) a pending Not() waits for the next built-in string test: custom tests added in between are not string tests and do not
+	// consume it; repeating Not() before the test changes nothing
+	{
+		s1 := z.String()
+		s1.Not()
+		s1.TestFunc(func(any, z.Ctx) bool { return true })
+		s1.Email()
+		s2 := z.String()
+		s2.Not()
+		s2.Not()
+		s2.URL()
+		s3 := z.String()
+		s3.Not()
+		s3.Not()
+		s3.Not()
+		s3.UUID()
+		l1 := s1.Parse("a@b.co", &sv)
+		l2 := s2.Parse("https://example.com", &sv)
+		l3 := s3.Parse("123e4567-e89b-12d3-a456-426614174000", &sv)
+		l4 := s2.Parse("not a url", &sv)
+		c.Eval(4)
+		if len(l1) != 1 || l1[0].Code != "not_email" || len(l2) != 1 || l2[0].Code != "not_url" || len(l3) != 1 || l3[0].Code != "not_uuid" || len(l4) != 0 {
+			c.Violation("not-negates-other-test|statement-style", map[string]any{"schemas": "s.Not(); s.TestFunc(f); s.Email() on a@b.co / s.Not(); s.Not(); s.URL() on a URL and on text / s.Not() x3; s.UUID() on a UUID", "issues": fmt.Sprint(z.Issues.SanitizeList(l1), z.Issues.SanitizeList(l2), z.Issues.SanitizeList(l3), z.Issues.SanitizeList(l4)), "want": "not_email / not_url, nothing / not_uuid"})
+			return false
+		}
+	}
+	// (j) a custom coercer on a list is the whole coercion: a scalar it refuses is not boxed behind its back
+	{
+		calls := 0
+		listsOnly := func(d any) (any, error) {
+			calls++
+			if l, ok := d.([]any); ok {
+				return l, nil
+			}
+			return nil, errors.New("lists only")
+		}
+		var out []string
+		m := z.Slice(z.String(), z.WithCoercer(listsOnly)).Parse("lonely", &out)
+		var out2 []string
+		m2 := z.Slice(z.String(), z.WithCoercer(listsOnly)).Parse([]any{"a", "b"}, &out2)
+		c.Eval(2)
+		if len(m["$root"]) != 1 || m["$root"][0].Code != "coerce" || len(out) != 0 || len(m2) != 0 || len(out2) != 2 || calls != 2 {
+			c.Violation("coercer-not-replaced|list-coercer-refusing-a-scalar", map[string]any{"schema": "Slice(String(), WithCoercer(accepts []any only))", "scalar_input": fmt.Sprint(out, z.Issues.SanitizeMap(m)), "list_input": fmt.Sprint(out2, z.Issues.SanitizeMap(m2)), "coercer_calls": calls, "want": "one coerce issue and nothing parsed / [a b]; two calls"})
+			return false
+		}
+	}
 	c.Count("directed_builder_scenarios", 1)
 	return true
 }
